@@ -1368,6 +1368,10 @@ func runFailures(cfg *config, id int, r *hx.Rng) {
 			d.stmt("UPDATE t1 SET nosuch = 1")
 			d.stmt("UPDATE t1 SET nosuch = 1 WHERE a = 999999")
 			d.stmt("UPDATE t1 SET a = 1, a = 2")
+			// a column as the source of an assignment is refused ("unsupported"), whatever the rows hold
+			d.stmt("UPDATE t1 SET b = c")
+			d.stmt("UPDATE t1 SET a = 7, c = b WHERE a >= 0")
+			d.stmt("UPDATE u1 SET x = x")
 			d.stmt(fmt.Sprintf("CREATE TABLE dup%d (a int, a int)", s))
 			d.selectAll(fmt.Sprintf("dup%d", s))
 			d.stmt(fmt.Sprintf("CREATE TABLE dup%d (a int, b int, c varchar(9), b boolean)", s))
